@@ -41,3 +41,36 @@ pub fn refid_to_u32(r: crate::ReferenceId) -> u32 {
     u32::from_be_bytes(r.to_bytes())
 }
 pub use crate::packet::verif_hook as packet;
+
+// --- source world
+pub use crate::source::verif_hook as source;
+/// wrapper around the crate-private cookie stash
+#[derive(Default)]
+pub struct Stash(crate::cookiestash::CookieStash);
+impl Stash {
+    pub fn new() -> Self {
+        Self::default()
+    }
+    pub fn store(&mut self, c: Vec<u8>) {
+        self.0.store(c)
+    }
+    pub fn get(&mut self) -> Option<Vec<u8>> {
+        self.0.get()
+    }
+    pub fn gap(&self) -> u8 {
+        self.0.gap()
+    }
+    pub fn len(&self) -> usize {
+        self.0.len()
+    }
+    pub fn is_empty(&self) -> bool {
+        self.0.is_empty()
+    }
+}
+pub fn make_nts_data(cookies: Vec<Vec<u8>>, c2s: &[u8], s2c: &[u8]) -> Option<Box<crate::SourceNtsData>> {
+    let mut stash = crate::cookiestash::CookieStash::default();
+    for c in cookies {
+        stash.store(c);
+    }
+    Some(Box::new(crate::SourceNtsData { cookies: stash, c2s: make_cipher(c2s)?, s2c: make_cipher(s2c)? }))
+}
